@@ -489,6 +489,12 @@ class Gen:
         fields = []
         for _ in range(self.r.randint(1, 3)):
             fields.append(F(self.nm(), self.int_node(list(PACKED_INTS) + (["uint24"] if self.o["wide"] else []))))
+        if self.chance(0.35):
+            # a fixed-size array member: its all-zero value (b"\0\0", [0, 0]) is truthy, yet the all-zero element
+            # is the terminator of a null-terminated array of these structures
+            elem = N_char() if self.chance(0.5) else self.int_node(["uint8", "uint16", "int32"])
+            fields.insert(self.r.randint(0, len(fields)), F(self.nm(), N_array(elem, L_fixed(self.r.randint(1, 3)))))
+            self.feat("null-elem:array-member")
         s = N_struct(fields)
         s["all_int"] = True
         return s
